@@ -650,6 +650,11 @@ fn read_code<C: CodeVisitor>(
 				Ok(())
 			})()
 				.with_context(|| anyhow!("at bytecode offset {}", opcode_pos))?;
+
+			// Skipping over operands may move past the end of the bytecode, in which case the last instruction is cut short.
+			if r.position() > r.get_ref().len() as u64 {
+				bail!("the instruction at bytecode offset {opcode_pos} extends beyond the end of the code array");
+			}
 		}
 	}
 
